@@ -316,6 +316,8 @@ def strip_empties(g):
 
 
 def known_class(c, clause):
+    if c.call == 'UUP' and clause == 'grid' and any(a[0] == 'PG' and a[1] for a in L.atoms(c.A)) and any(a[0] == 'LS' and a[1] for a in L.atoms(c.A)):
+        return 'unaryunionprec-lines-and-polygons'
     if c.call == 'UUP' and clause == 'grid' and len([a for a in L.atoms(c.A) if a[0] == 'PG' and a[1]]) == 1:
         return 'unaryunionprec-single-polygon'
     if c.call == 'SETP' and (c.flags & 1) and clause == 'pointwise-empties':
